@@ -74,7 +74,7 @@ type c15req struct {
 func c15sub(c *ctx) {
 	n := 40
 	if c.thorough() {
-		n = 600
+		n = 2000
 	}
 	for i := 0; i < n; i++ {
 		c15script(c, i)
